@@ -1,5 +1,6 @@
 import Proofs.Payouts
 import Proofs.Arith
+import Proofs.Bank
 /-
   C16 — PEG conversion bank (legacy era): limit, proportional yield, refund.
   Statements are about `payouts` / `refund`, the model functions the correspondence check runs
@@ -53,6 +54,33 @@ theorem refund_value (pip10 h : Nat) (input yield : Int) (srcR pegR : Nat)
   show yield * (pegR : Int) + convertD pip10 h (maxY - yield) pegR pegR srcR srcR * (srcR : Int) ≤ input * (srcR : Int)
   omega
 
+/-! ### the second pass of a bank-era block (`recordPegnetRequests`) -/
+
+/-- **The PEG created by the conversions of one block never exceeds that block's bank — at the
+    level of the ledger.** Whenever the bank pass of a block completes and everything handed to it
+    is a genuine PEG request, the PEG supply has grown by exactly the sum of the payouts computed by
+    `ConversionSupplySet.Payouts` on the requests, and that sum is at most the bank. (Batches that
+    mix a PEG request with other transactions are excluded: the recorded finding.) -/
+theorem block_peg_creation_within_bank (P : Params) (h : Nat) (rates avgs : TMap) (batches : List TxEntry)
+    (bank : Nat) (bankHeight : Int) (s s' : DB) (hok : AddrsOK s) (hb : bank ≤ maxUint64)
+    (hall : ∀ r ∈ pegRequests P h rates avgs batches, r.tx.conversion = tPEG ∧ r.tx.inType ≠ tPEG)
+    (hr : recordPegRequests P h rates avgs batches bank bankHeight s = .ok () s') :
+    s'.supply tPEG = s.supply tPEG +
+      (sumReq (payouts bank ((pegRequests P h rates avgs batches).map fun r => (r.key, r.requested))) : Int) ∧
+    sumReq (payouts bank ((pegRequests P h rates avgs batches).map fun r => (r.key, r.requested))) ≤ bank :=
+  recordPegRequests_supply P h rates avgs batches bank bankHeight s s' hok hb hall hr
+
+/-- **The bank ledger records the amount used and requested for the block**: in the bank-table
+    era the row of the block gets `used` = the sum of the yields handed out and `requested` = the
+    total requested; `amount` and every other row stay as they were. -/
+theorem bank_row_records_used_and_requested (P : Params) (h : Nat) (rates avgs : TMap) (batches : List TxEntry)
+    (bank : Nat) (bankHeight : Int) (s s' : DB) (hv4 : bankHeight ≥ (P.act.v4 : Int))
+    (hr : recordPegRequests P h rates avgs batches bank bankHeight s = .ok () s') :
+    let reqs := (pegRequests P h rates avgs batches).map fun r => (r.key, r.requested)
+    s'.bank = s.bank.map (fun r => if r.height == bankHeight then
+      { r with used := ((payouts bank reqs).map (fun p => toInt64 p.2)).sum, requested := toInt64 (totalRequested reqs) } else r) :=
+  recordPegRequests_bank_row P h rates avgs batches bank bankHeight s s' hv4 hr
+
 /-! non-vacuity -/
 example : payouts 100 [(⟨0, "aa"⟩, 60), (⟨1, "aa"⟩, 60)] = [(⟨0, "aa"⟩, 50), (⟨1, "aa"⟩, 50)] := by decide
 example : payouts 100 [(⟨0, "bb"⟩, 70), (⟨0, "aa"⟩, 70), (⟨1, "aa"⟩, 10)] =
@@ -67,3 +95,5 @@ end Pegnet.C16
 #print axioms Pegnet.C16.proportional_otherwise
 #print axioms Pegnet.C16.same_requesters
 #print axioms Pegnet.C16.refund_value
+#print axioms Pegnet.C16.block_peg_creation_within_bank
+#print axioms Pegnet.C16.bank_row_records_used_and_requested
